@@ -173,7 +173,8 @@ inline std::vector<LineMut> gen_line_muts(Cat &C, const std::vector<std::string>
 					for (size_t i = 0; i < VM.size(); i++) {
 						// quick: every third (field, mutation) pair, rotating (Rabin key text: every ninth - each field is bound by
 						// the self-signature over the whole text and one check costs 500 Miller-Rabin rounds)
-						if (!full && heavy(proto) && ((rot++) % (proto == "rabin/key-nizk" ? 9 : 3)) != 0) continue;
+						// the range class (+q) is never sampled away
+						if (!full && heavy(proto) && VM[i].mut != "+q" && ((rot++) % (proto == "rabin/key-nizk" ? 9 : 3)) != 0) continue;
 						push((int)j, role, VM[i].mut, f, with(VM[i].text), VM[i].judged, LineMut::REPL, VM[i].why);
 					}
 					if (full) push((int)j, role, "empty", f, with(""), true);
